@@ -359,6 +359,7 @@ def explore(rng, transport, profile, flavor, runner_cls, max_cmds=70):
                 term = bytes(srv.out).find(b'\n##\n' if srv.base11 else DELIM10)
                 hi = (term if term > 0 else n) - 1
                 k = rng.randint(max(1, min(hi, int(hi * 0.5))), max(1, hi))
+                k = min(k, 20000 if transport == 'tls' else 4096)          # one transport read
                 d = bytes(srv.out[:k])
                 del srv.out[:k]
                 info['_eof_next'] = True
@@ -367,7 +368,7 @@ def explore(rng, transport, profile, flavor, runner_cls, max_cmds=70):
                 do(['w', d.hex(), list(texts) + [t.strip() for t in texts if t.strip() != t]])
             elif fault_budget and len(srv.out) > 0 and rng.random() < 0.2 and any((b & 0xC0) == 0x80 for b in srv.out):
                 # the peer goes away in the middle of a multi-byte character: hand over the bytes up to there, then EOF
-                i = next(k for k, b in enumerate(srv.out) if (b & 0xC0) == 0x80)
+                i = min(next(k for k, b in enumerate(srv.out) if (b & 0xC0) == 0x80), 4096)
                 d = bytes(srv.out[:i])
                 del srv.out[:]
                 texts = srv.sent_texts[info.setdefault('_classified', 0):]
